@@ -327,10 +327,64 @@ def run(prog, chk):
     if n_refs < 15:
         raise Broken("only %d references to container-scoped tables found in the embedded statements" % n_refs)
 
+    r7 = chk.rule("R7-lookup-accepts-what-lenient-creation-stores", "block and frame creation has a lenient mode (used by the parser "
+                  "when an error about the code was accepted) that stores a code without validating it; the look-up by code of the "
+                  "same table must then normalise its key without validating, or the container just created cannot be found "
+                  "again (duplicate-code recovery, a second parse into the same CIF)", primary=False, floor=2)
+    if lenient_lookup_rule(prog, m, r7) < 2:
+        raise Broken("fewer than 2 look-up functions for leniently created containers found")
+
     r6 = chk.rule("R6-null-category-is-not-scalar", "every decision whether a loop category is the scalar category \"\" answers no for "
                   "a NULL category (no category): by the boolean structure of the test, or because the test is only reached "
                   "where the category was found non-NULL", primary=False, floor=3)
     scalar_category_rule(prog, r6)
+
+
+def lenient_lookup_rule(prog, m, rule):
+    tables_of = {}
+    for f, e in m.statements.items():
+        sql = " ".join(e["sql"].lower().split())
+        tables_of[f] = (sql, {t for t in ("data_block", "save_frame") if re.search(r"\b%s\b" % t, sql)})
+
+    def stmts_of(fn):
+        return {x.get("name") for (b, i, r, x) in fn.eval_sites("member") if x.get("name") in tables_of}
+    creators = {}
+    for fn in prog.all_functions():
+        if not any(p["name"] == "lenient" for p in fn.params):
+            continue
+        calls = {c.get("callee") for (b, i, r, c) in fn.calls()}
+        if "cif_normalize" in calls and "cif_normalize_name" in calls:
+            for st in stmts_of(fn):
+                sql, tabs = tables_of[st]
+                if sql.startswith("insert"):
+                    for t in tabs:
+                        creators[t] = fn.name
+    if not creators:
+        raise Broken("no creation function with a lenient mode found")
+    n = 0
+    for fn in prog.all_functions():
+        if fn.name in creators.values():
+            continue
+        norm = [(b, i, r, c) for (b, i, r, c) in fn.calls() if c.get("callee") in ("cif_normalize", "cif_normalize_name")]
+        if not norm:
+            continue
+        for st in sorted(stmts_of(fn)):
+            sql, tabs = tables_of[st]
+            if not sql.startswith("select") or "name = ?" not in sql.replace("name=?", "name = ?"):
+                continue
+            for t in sorted(tabs & set(creators)):
+                for (b, i, r, c) in norm:
+                    n += 1
+                    key = "%s:%s:%s" % (fn.name, t, c["callee"])
+                    if c["callee"] == "cif_normalize":
+                        rule.ok(key, "normalises without validating; %s can store unvalidated codes" % creators[t])
+                    else:
+                        rule.violation(fn.file, fn.name, c.get("l"), "lookup-validates:%s" % fn.name,
+                                       "%s looks a container up in `%s` by a key it first validates (cif_normalize_name), while %s in "
+                                       "lenient mode stores codes without validation: a container the parser created after an accepted "
+                                       "error about its code is reported absent / refused, and the recovery that re-opens it fails"
+                                       % (fn.name, t, creators[t]))
+    return n
 
 
 def scalar_category_rule(prog, rule):
